@@ -1,0 +1,83 @@
+//go:build verif
+// +build verif
+
+package band
+
+// Read-only snapshot of a band's internal tables for the verification
+// harness (build tag "verif"). It does not change any behaviour.
+
+// VerifDataRate is a data-rate with its uplink / downlink flags.
+type VerifDataRate struct {
+	Index    int
+	Uplink   bool
+	Downlink bool
+	DataRate DataRate
+}
+
+// VerifChannel is a channel with its enabled / custom flags.
+type VerifChannel struct {
+	Channel Channel
+	Enabled bool
+	Custom  bool
+}
+
+// VerifSize is one entry of the max payload-size tables.
+type VerifSize struct {
+	Version  string
+	Revision string
+	DR       int
+	Size     MaxPayloadSize
+}
+
+// VerifSnapshotData holds the tables.
+type VerifSnapshotData struct {
+	SupportsExtraChannels bool
+	CFListMinDR           int
+	CFListMaxDR           int
+	DataRates             []VerifDataRate
+	RX1Table              map[int][]int
+	UplinkChannels        []VerifChannel
+	DownlinkChannels      []VerifChannel
+	TXPowerOffsets        []int
+	Sizes                 []VerifSize
+}
+
+func (b *band) verifSnapshot() VerifSnapshotData {
+	s := VerifSnapshotData{
+		SupportsExtraChannels: b.supportsExtraChannels,
+		CFListMinDR:           b.cFListMinDR,
+		CFListMaxDR:           b.cFListMaxDR,
+		RX1Table:              map[int][]int{},
+		TXPowerOffsets:        append([]int{}, b.txPowerOffsets...),
+	}
+	for i, d := range b.dataRates {
+		s.DataRates = append(s.DataRates, VerifDataRate{Index: i, Uplink: d.uplink, Downlink: d.downlink, DataRate: d})
+	}
+	for k, v := range b.rx1DataRateTable {
+		s.RX1Table[k] = append([]int{}, v...)
+	}
+	for _, c := range b.uplinkChannels {
+		s.UplinkChannels = append(s.UplinkChannels, VerifChannel{Channel: c, Enabled: c.enabled, Custom: c.custom})
+	}
+	for _, c := range b.downlinkChannels {
+		s.DownlinkChannels = append(s.DownlinkChannels, VerifChannel{Channel: c, Enabled: c.enabled, Custom: c.custom})
+	}
+	for ver, revs := range b.maxPayloadSizePerDR {
+		for rev, drs := range revs {
+			for dr, sz := range drs {
+				s.Sizes = append(s.Sizes, VerifSize{Version: ver, Revision: rev, DR: dr, Size: sz})
+			}
+		}
+	}
+	return s
+}
+
+// VerifSnapshot returns the snapshot of the given band, ok is false when the
+// band is not one of this package's implementations.
+func VerifSnapshot(b Band) (VerifSnapshotData, bool) {
+	v, ok := b.(interface{ verifSnapshot() VerifSnapshotData })
+	if !ok {
+		return VerifSnapshotData{}, false
+	}
+	return v.verifSnapshot(), true
+}
